@@ -392,6 +392,20 @@ pub fn run_inputs(opts: &Opts, only: Option<Vec<Vec<u8>>>) -> Run {
             }
         }
     }
+    if !replaying {
+        // VALID frames with more than 64 KiB of Huffman-compressed literals in one block (four streams whose first three
+        // together exceed 65535 bytes: 16-bit arithmetic on the jump table would wrap): match-free noise over 64 values
+        for (lvl, len) in [(1, 140_000usize), (19, 131_072), (3, 300_000)] {
+            let d: Vec<u8> = (0..len).map(|_| 32 + rng.below(64) as u8).collect();
+            let f = gen::zstd_frame(&d, &gen::ZParams { level: lvl, window_log: None, ldm: false, checksum: true, content_size: true, flush_every: None, min_match: None, strategy_btultra: false }, None);
+            inputs.push((f, format!("valid: {} bytes of 64-value noise at level {} (big four-stream literals)", len, lvl), Some(d)));
+            run.stat("valid_big_literals", 1);
+        }
+        for (b, label) in directed_hostile() {
+            inputs.push((b, format!("hostile: {}", label), None));
+            run.stat("hostile_directed", 1);
+        }
+    }
     let n_host = if replaying { 0 } else if opts.thorough { 6000 } else { 240 };
     for _ in 0..n_host {
         let (bytes, label) = synth::hostile_frame(&mut rng);
@@ -459,6 +473,9 @@ pub fn run_inputs(opts: &Opts, only: Option<Vec<Vec<u8>>>) -> Run {
             run.oracle_checks += 1;
             if let Some(p) = &o.panic {
                 run.fail("C03", &format!("panic:{}", p.rsplit(" @ ").next().unwrap_or("?")), format!("[{}] {} panicked: {}", label, o.what, p), replay.clone());
+                if reference.is_some() && (expected.is_some() || label.starts_with("valid")) {
+                    run.fail("C01", "panic_on_valid_frame", format!("[{}] {} panicked on a valid frame (the reference decoder reproduces {} bytes): {}", label, o.what, reference.as_ref().map(|r| r.len()).unwrap_or(0), p), replay.clone());
+                }
             }
             if let Some(e) = &o.err {
                 if e.starts_with("VECTOR-CHANGED") {
@@ -541,12 +558,37 @@ pub fn run_inputs(opts: &Opts, only: Option<Vec<Vec<u8>>>) -> Run {
             }
             Some(Ok(Ok(()))) => {}
         }
+        // ---- … and probes whose first block USES state a fresh decoder does not have (treeless literals, Repeat_Mode
+        // for each of the three tables): invalid on a fresh decoder; whatever an earlier frame left behind, a reused
+        // decoder must answer exactly like the fresh one, and must not panic
+        for (pk, (pname, pbytes)) in state_probes().iter().enumerate() {
+            run.oracle_checks += 1;
+            let (b4, p4) = (bytes.clone(), pbytes.clone());
+            let how2 = (how + pk as u64) % 4;
+            match with_deadline(8_000, move || guarded(|| reuse_after(&b4, &p4, how2))) {
+                None => {
+                    run.fail("C03", "hang_reuse", format!("[{}] reuse with probe '{}' did not finish", label, pname), format!("{}\nhostile input {}", replay, hex(pbytes)));
+                    aborted = true;
+                    break;
+                }
+                Some(Err(p)) => run.fail("C03", "panic_reuse", format!("[{}] panic while decoding the probe '{}' on the decoder reused after this input: {}", label, pname, p), format!("{}\nhostile input {}", replay, hex(pbytes))),
+                Some(Ok(Err(e))) => {
+                    run.fail("C07", "reuse_differs", format!("[{}] probe '{}': {}", label, pname, e), format!("{}\nhostile input {}", replay, hex(pbytes)));
+                }
+                Some(Ok(Ok(()))) => {}
+            }
+        }
+        if aborted {
+            break;
+        }
         // ---- valid frames go to the model as well (rare format features)
         if let Some(r) = &reference {
             if bytes.len() < 60_000 && r.len() < 300_000 && (idx % 2 == 0 || expected.is_some()) {
                 let t = |n| Some(Truth { original: r.clone(), frame_len: n, complete: true, has_checksum: bytes.len() > 4 && bytes[4] & 4 != 0 });
                 let flen = outs.first().map(|_| bytes.len()).unwrap_or(0);
                 let mut p = Prog::new(&mut run, label);
+                // (a mutated frame that the lenient reference decoder still accepts is not certainly valid: the Spec decides)
+                p.lenient_truth = expected.is_none() && !label.starts_with("valid");
                 p.set_src(bytes.clone(), vec![], t(flen));
                 if idx % 4 < 2 {
                     drive_blocks(&mut p, &mut rng, window as usize);
@@ -595,6 +637,62 @@ pub fn run_inputs(opts: &Opts, only: Option<Vec<Vec<u8>>>) -> Run {
                 Some(Ok(())) => {}
             }
             run.stat("hostile_dicts", 1);
+        }
+        // directed: the three repeat offsets of the dictionary (taken over unchecked by the parser) set to 0 / huge values,
+        // with frames whose FIRST sequence uses each repeat code, with and without literals in front
+        if let Ok(parsed) = ruzstd::decoding::Dictionary::decode_dict(&dict) {
+            let clen = parsed.dict_content.len();
+            if dict.len() >= clen + 12 {
+                let pos = dict.len() - clen - 12;
+                let id = parsed.id;
+                let offsets: Vec<[u32; 3]> = vec![[0, 4, 8], [1, 0, 8], [1, 4, 0], [0, 0, 0], [u32::MAX, 1, 1], [clen as u32, clen as u32 + 1, clen as u32 + 2], [1 << 31, 1 << 30, 7]];
+                for offs in offsets {
+                    let mut m = dict.clone();
+                    for (k, o) in offs.iter().enumerate() {
+                        m[pos + 4 * k..pos + 4 * k + 4].copy_from_slice(&o.to_le_bytes());
+                    }
+                    // (ll, offset code, offset extra): offset values 1, 2, 3 with and without literals
+                    for (ll, ofc, ofe) in [(4u8, 0u8, 0u32), (4, 1, 0), (4, 1, 1), (0, 0, 0), (0, 1, 0), (0, 1, 1)] {
+                        let blk = synth::SeqBlock { lits: synth::Lit::Raw(b"abcd"[..ll as usize].to_vec()), ll_code: ll, ml_code: 0, of_code: ofc, seqs: vec![(0, 0, ofe)], count_bytes: None, modes: None, repeat: [false; 3], trailer: vec![] };
+                        let mut f = synth::Frame::simple(vec![synth::Block::Comp(blk)], 0, false);
+                        f.dict_id = Some((3, id));
+                        let (fb, _) = synth::serialize(&f, &[]);
+                        run.oracle_checks += 1;
+                        let replay = format!("hostile dict {} frame {}", hex(&m), hex(&fb));
+                        let (m2, f2) = (m.clone(), fb.clone());
+                        let r = with_deadline(10_000, move || {
+                            guarded(|| {
+                                if let Ok(d) = ruzstd::decoding::Dictionary::decode_dict(&m2) {
+                                    let mut dec = FrameDecoder::new();
+                                    let _ = dec.add_dict(d);
+                                    let mut out = Vec::with_capacity(1 << 16);
+                                    let _ = dec.decode_all_to_vec(&f2, &mut out);
+                                    // the streaming front end as well
+                                    let mut dec2 = FrameDecoder::new();
+                                    if let Ok(d2) = ruzstd::decoding::Dictionary::decode_dict(&m2) {
+                                        let _ = dec2.add_dict(d2);
+                                    }
+                                    let mut src = &f2[..];
+                                    if dec2.reset(&mut src).is_ok() {
+                                        let _ = dec2.decode_blocks(&mut src, BlockDecodingStrategy::All);
+                                    }
+                                }
+                            })
+                        });
+                        let label = format!("repeat offsets {:?}, first sequence ll={} offset value {}", offs, ll, (1u32 << ofc) + ofe);
+                        match r {
+                            None => {
+                                run.fail("C03", "hang_dict", format!("[dictionary with {}] decoding did not finish", label), replay);
+                                run.notes.push("aborted after a hang (hostile dictionary): remaining directed dictionaries not run".into());
+                                return run;
+                            }
+                            Some(Err(p)) => run.fail("C03", &format!("panic_dict:{}", p.rsplit(" @ ").next().unwrap_or("?")), format!("[dictionary with {}] panic: {}", label, p), replay),
+                            Some(Ok(())) => {}
+                        }
+                        run.stat("hostile_dicts_directed", 1);
+                    }
+                }
+            }
         }
         run.stat("ms:dict_total", t_dict.elapsed().as_millis() as u64);
     } else {
@@ -665,4 +763,70 @@ pub fn oversize_block(b: &[u8]) -> Option<String> {
         }
     }
     None
+}
+
+/// Frames whose FIRST block uses decoder state that only an earlier block could have set up.
+fn state_probes() -> Vec<(String, Vec<u8>)> {
+    let mut v = vec![];
+    // treeless literals (type 3) in the first block: regenerated size 1, one stream byte
+    v.push(("treeless literals first".to_string(), unhex("28b52ffd0000250000134000ff").unwrap()));
+    // Repeat_Mode for LL / OF / ML in the first sequences section
+    for t in 0..3 {
+        let mut rep = [false; 3];
+        rep[t] = true;
+        let blk = synth::SeqBlock { lits: synth::Lit::Raw(vec![1, 2, 3, 4]), ll_code: 4, ml_code: 0, of_code: 2, seqs: vec![(0, 0, 0)], count_bytes: None, modes: None, repeat: rep, trailer: vec![] };
+        let f = synth::Frame::simple(vec![synth::Block::Raw(vec![9, 8, 7, 6]), synth::Block::Comp(blk)], 0, false);
+        let (b, _) = synth::serialize(&f, &[]);
+        // drop the raw block in front so that the compressed block is the first one? keep both variants
+        v.push((format!("Repeat_Mode {} in the first sequences section", ["LL", "OF", "ML"][t]), b));
+    }
+    v
+}
+
+/// Directed hostile frames for panic sites that random mutation rarely reaches.
+pub fn directed_hostile() -> Vec<(Vec<u8>, String)> {
+    let mut v: Vec<(Vec<u8>, String)> = vec![];
+    // Huffman table builds that FAIL after the table was touched (max_num_bits / decode left inconsistent), alone and
+    // after a block that built a good table; a treeless block behind them
+    for (h, label) in [
+        ("28b52ffd00002c000012800081bb250000134000ff", "weights (11,11): MaxBitsTooHigh, then treeless"),
+        ("28b52ffd00002d000012800081bb", "weights (11,11): MaxBitsTooHigh, last block"),
+        ("28b52ffd00002c00001280008122250000134000ff", "weights (2,2): leftover not a power of two, then treeless"),
+    ] {
+        if let Some(b) = unhex(h) {
+            v.push((b, label.to_string()));
+        }
+    }
+    // four-stream literals: jump tables around the size of the stream area (sum of the three sizes = area - 1 … area + 8),
+    // two 1-bit symbols (direct description `81 11`), regenerated sizes 4 … 12
+    for area in [0usize, 1, 2, 3, 6, 12] {
+        for over in 0..10usize {
+            let total = (area + over).saturating_sub(1);
+            for split in 0..3 {
+                let (j1, j2, j3) = match split {
+                    0 => (total, 0, 0),
+                    1 => (0, 0, total),
+                    _ => (total / 3, total / 3, total - 2 * (total / 3)),
+                };
+                let comp = 2 + 6 + area;
+                let regen = 4 + (over % 9);
+                let lh: u32 = 2 | (1 << 2) | ((regen as u32) << 4) | ((comp as u32) << 14);
+                let mut body = lh.to_le_bytes()[..3].to_vec();
+                body.extend_from_slice(&[0x81, 0x11]);
+                for j in [j1, j2, j3] {
+                    body.extend_from_slice(&(j as u16).to_le_bytes());
+                }
+                for k in 0..area {
+                    body.push(if k + 1 == area { 0x01 } else { 0x5a });
+                }
+                body.push(0); // zero sequences
+                let bh: u32 = 1 | (2 << 1) | ((body.len() as u32) << 3);
+                let mut f = vec![0x28, 0xb5, 0x2f, 0xfd, 0x00, 0x00];
+                f.extend_from_slice(&bh.to_le_bytes()[..3]);
+                f.extend_from_slice(&body);
+                v.push((f, format!("4-stream jump table {}+{}+{} over a stream area of {} bytes", j1, j2, j3, area)));
+            }
+        }
+    }
+    v
 }
